@@ -207,9 +207,15 @@ func (c *Controller) HandleVisitor(m *msg.NatHoleVisitor, transporter transport.
 		delete(c.sessions, sid)
 	}()
 
+	// The xtcp proxy may be closed (or busy) by now: nobody receives from sidCh any more, so don't wait for ever.
+	delivered := false
 	if err := errors.PanicToError(func() {
-		clientCfg.sidCh <- sid
-	}); err != nil {
+		select {
+		case clientCfg.sidCh <- sid:
+			delivered = true
+		case <-time.After(time.Duration(NatHoleTimeout) * time.Second):
+		}
+	}); err != nil || !delivered {
 		return
 	}
 
